@@ -112,6 +112,11 @@ type pEvalOpts struct {
 
 func (p *pipeCtx) emit(r *pRun, res *pResult, o pEvalOpts) {
 	c := p.c
+	if res.discard {
+		// setup problem, not a verdict: the log was cut while the engine was still working
+		c.dist("run_kind", "discarded-not-quiescent")
+		return
+	}
 	terms := pTerms(res.items)
 	term := pCaseTerm(r.spec, terms, res.onceSame, res.onceFresh, res.anyVis, res.bad, res.exact)
 	labels := make([]string, 0, len(terms))
@@ -647,7 +652,6 @@ func pBackpressure(p *pipeCtx, idx int) {
 	nth := rng.IntN(2)
 	_, release := r.plan.wedgeAt(kind, nth)
 	r.start()
-	r.measuring.Store(true)
 	nProd := 1 + rng.IntN(8)
 	seeds := make([]uint64, nProd)
 	for i := range seeds {
@@ -670,7 +674,12 @@ func pBackpressure(p *pipeCtx, idx int) {
 	}
 	// let the producers run into the stall
 	waitFor(func() bool { return r.hung.Load() == 0 }, 3*time.Second)
-	r.measuring.Store(false)
+	// every producer gave up: the pipeline is as full as the stall lets it get; once the receivers
+	// have caught up the difference below is exact
+	r.waitQuiet(time.Second, 20*time.Millisecond)
+	r.mu.Lock()
+	r.peakUn = r.accN.Load() - r.ansN.Load()
+	r.mu.Unlock()
 	release()
 	r.stopWithDeadline(20 * time.Second)
 	res := r.finish(3*time.Second, true)
